@@ -111,7 +111,11 @@ def showCont (w : World) (c : Nat) : String :=
       let body := ",".intercalate (kvs.map (fun kv => showCode (code w false kv.1) ++ ":" ++ showCode (code w false kv.2)))
       s!" {c}:{k}" ++ "{" ++ body ++ "}"
     | _ =>
-      let body := ",".intercalate (x.toks.map (fun t => showCode (code w x.isBox t)))
+      -- payload@rank: rank of the identity among the (live, constructed) identities of this container
+      let liveIds := (x.toks.filter (fun t => code w x.isBox t ≥ 2)).map (·.id)
+      let body := ",".intercalate (x.toks.map (fun t =>
+        let cd := code w x.isBox t
+        if cd ≥ 2 then showCode cd ++ "@" ++ toString (liveIds.filter (· < t.id)).length else showCode cd))
       s!" {c}:{k}[" ++ body ++ "]"
 
 def sortNat (xs : List Nat) : List Nat := (xs.toArray.qsort (· < ·)).toList
